@@ -19,6 +19,7 @@ from typing import Any
 import falcon
 
 from .._common import (
+    _ARROW_CONTENT_TYPE,
     _ERROR_PAGE_STYLE,
     _FONT_IMPORTS,
     _VGI_LOGO_HTML,
@@ -26,6 +27,7 @@ from .._common import (
     AUTH_REASON_HEADER,
 )
 from .._unauthorized import AuthReason
+from ._responses import _error_response_stream
 
 _NOT_FOUND_HTML_TEMPLATE = (
     """\
@@ -172,6 +174,16 @@ def _make_error_serializer(proxy_hint: str = "") -> Callable[[falcon.Request, fa
 
     def _serialize(req: falcon.Request, resp: falcon.Response, exc: falcon.HTTPError) -> None:
         """Serialize one Falcon error onto the response."""
+        if getattr(req.context, "vgi_rpc_request_rejected", False) and exc.status_code in (400, 413):
+            # A request-body rejection raised by our own middleware (oversize,
+            # undecodable Content-Encoding) on an RPC route.  WIRE_PROTOCOL.md
+            # section 13 promises that a 400 / 413 body is still an Arrow IPC
+            # error stream; Falcon's JSON rendering left the client with
+            # "response is not a valid Arrow IPC stream" instead of the reason.
+            message = f"{exc.title}: {exc.description}" if exc.description else str(exc.title)
+            resp.content_type = _ARROW_CONTENT_TYPE
+            resp.data = _error_response_stream(RuntimeError(message)).getvalue()
+            return
         if not isinstance(exc, falcon.HTTPUnauthorized):
             resp.content_type = falcon.MEDIA_JSON
             resp.data = exc.to_json()
